@@ -1134,6 +1134,28 @@ def main():
     A('def goConsts : List (String × String × String) := [')
     A(',\n'.join(rows))
     A(']')
+    # self-check of the parser against an independent, purely textual reading: for every function, the C functions named in its
+    # source text (regex over the comment-stripped body) are exactly the C call nodes of its syntax tree
+    def ast_ccalls(n, acc):
+        if isinstance(n, (tuple, list)):
+            if len(n) == 3 and n[0] == 'call' and isinstance(n[1], tuple) and n[1][0] == 'sel' and n[1][1] == ('id', 'C'):
+                acc.append(n[1][2])
+            for x in n:
+                ast_ccalls(x, acc)
+        return acc
+    for pkg in PKGS:
+        d = os.path.join(repo, 'lang', 'go', pkg)
+        for fnm in sorted(os.listdir(d)):
+            if not fnm.endswith('.go') or fnm.endswith('_test.go'):
+                continue
+            txt = open(os.path.join(d, fnm), encoding='utf-8').read()
+            txt = re.sub(r'/\*.*?\*/', ' ', txt, flags=re.S); txt = re.sub(r'//[^\n]*', '', txt)
+            textual = sorted(re.findall(r'\bC\.([A-Za-z_][A-Za-z_0-9]*)\s*\(', txt))
+            _, decls = parse_file(os.path.join(d, fnm))
+            fromast = sorted(ast_ccalls(decls, []))
+            if textual != fromast:
+                raise SystemExit(f'go2lean: {fnm}: the parser and a textual scan disagree on the C calls: '
+                                 f'only in text {sorted(set(textual) - set(fromast))}, only in tree {sorted(set(fromast) - set(textual))}, counts {len(textual)}/{len(fromast)}')
     # functions
     fnrows, callrows, models, unmodelled, digests = [], [], [], [], []
     for pkg in PKGS:
@@ -1146,6 +1168,11 @@ def main():
             ex = Exec(w, pkg, f'{pkg}.{q}')
             try:
                 term = ex.run_function(decl)
+                # no C call of the body may be silently dropped by the executor (a branch it decided statically, an early return)
+                own = {c for c in ast_ccalls(decl, []) if c in w.protos}
+                seen = set(re.findall(r'\.ccall "(\w+)"', term))
+                if not own <= seen:
+                    raise Unsupported('C calls not reached by the symbolic execution: ' + ', '.join(sorted(own - seen)))
                 models.append((f'{pkg}.{q}', term))
                 for cname, tys, texts in ex.calls:
                     callrows.append(f'  {{ caller := {lstr(pkg + "." + q)}, callee := {lstr(cname)}, argTys := {llist([lstr(t) for t in tys])}, argTexts := {llist([lstr(t) for t in texts])} }}')
